@@ -259,6 +259,10 @@ func H_C16_roundtrip() {
 func H_C16_leaf() {
 	layoutReset(8, 0)
 	t, s := symLeaf()
+	if vTier() == 0 {
+		// quick: a seed-selected half of the operators
+		vAssume(int(t.(*MatchExpression).Operator)%2 == vSeed()%2)
+	}
 	got, err := Parse("", []byte(optSpace()+s+optSpace()))
 	vAssert(err == nil, "a rendered match is accepted")
 	if err == nil {
